@@ -42,10 +42,11 @@ def make_gate(P):
 
     L = P["L"]
 
-    def h(o1: int, o2: int, o3: int, o4: int, o5: int, u: int) -> str:
+    def h(o1: int, o2: int, o3: int, o4: int, o5: int, u: int, swap: bool) -> str:
         ops = [fork_int(o, 0, 7) for o in [o1, o2, o3, o4, o5][:L]]
         only_shard(sum(o * 8**i for i, o in enumerate(ops[:2])), P)
-        us = fork_int(u, 2, 8)
+        us = 3 if fork_int(u, 0, 1) == 0 else 6
+        sw = True if swap else False
         with notrace():
             holder = {}
             installed = [False, False]
@@ -53,7 +54,9 @@ def make_gate(P):
             def setup(lab):
                 sigs = [Signal("s0", lab, 0), Signal("s1", lab, 0)]
                 holder["signals"] = dict(s0=sigs[0], s1=sigs[1])
-                sus = [bs.SuspendBoolHigh(sigs[i], sleep=SLEEP) for i in range(2)]
+                # fixed hashes make the iteration order of the engine's suspender *set* deterministic (both orders are explored)
+                classes = [type("Susp%d" % i, (bs.SuspendBoolHigh,), {"__hash__": (lambda self, v=(i if not sw else 1 - i): v)}) for i in range(2)]
+                sus = [classes[i](sigs[i], sleep=SLEEP) for i in range(2)]
                 holder["sus"] = sus
                 with contextlib.redirect_stdout(lab.out):
                     for op in ops:
@@ -189,10 +192,10 @@ def _fns():
             RunEngine.remove_suspender, RunEngine.__call__, RunEngine.request_suspend, RunEngine._start_suspender]
 
 
-register(Harness("c31_gate", "C31", make_gate, {"quick": dict(L=3, shards=32, budget_s=300, per_path_s=30), "thorough": dict(L=5, shards=64, budget_s=3000, per_path_s=30)},
+register(Harness("c31_gate", "C31", make_gate, {"quick": dict(L=4, shards=64, budget_s=300, per_path_s=30), "thorough": dict(L=5, shards=64, budget_s=3000, per_path_s=30)},
                  goals=["gated", "not-gated", "removed"], functions=_fns, mode="schedule",
                  symbolic="history of L operations, each in {install, remove, signal high, signal low} x {suspender 0, suspender 1}, applied while idle; then a plan is started and "
-                 "the high signals go low at loop step u in [2,8]", out_of_bound=OUT + "; suspender classes other than SuspendBoolHigh (their conditions are C30)",
+                 "the high signals go low at loop step u in {3,6}; both iteration orders of the engine's suspender set", out_of_bound=OUT + "; suspender classes other than SuspendBoolHigh (their conditions are C30)",
                  stubs=STUBS + ["bluesky.suspenders.threading bound to the lab's pumping Event"], require_exhaustive=True))
 register(Harness("c31_during", "C31", make_during, {"quick": dict(shards=13, budget_s=300, per_path_s=30)},
                  goals=["suspended"], functions=_fns, mode="schedule",
